@@ -411,7 +411,8 @@ def r72(ctx, repo):
                     and c.func.attr not in top and method(
                         cls, c.func.attr) is not None:
                 hm = method(cls, c.func.attr)
-                params = [a.arg for a in hm.args.args][1:]
+                params = [a.arg for a in
+                          hm.args.posonlyargs + hm.args.args][1:]
                 bound = {params[i] for i, a in enumerate(c.args)
                          if i < len(params) and map_derived(a)}
                 bound |= {kw.arg for kw in c.keywords
@@ -531,9 +532,6 @@ def r72(ctx, repo):
            label="proxy length")
     # load_dataset wraps mapped basins only
     ld = repo.func(FB, "Basin.load_dataset")
-    rets = [r for r in walk(ld) if isinstance(r, ast.Return)]
-    if len(rets) != 1:
-        raise AnalysisError("Basin.load_dataset: return idiom lost")
     loaded = [n.targets[0].id for n in walk(ld) if isinstance(n, ast.Assign)
               and isinstance(n.value, ast.Call)
               and last_attr(n.value) == "_load_dataset"]
@@ -541,25 +539,47 @@ def r72(ctx, repo):
         raise AnalysisError("Basin.load_dataset: loading call lost")
 
     def value_for(mapping):
-        v = rets[0].value
-        if isinstance(v, ast.Name):
-            cands = [n for n in walk(ld) if isinstance(n, ast.Assign)
-                     and is_name(n.targets[0], v.id)]
-            live = []
-            for n in cands:
-                conds = enclosing_conditions(n, ld)
-                if all(bool(fold(t, {"self.mapping": mapping},
-                                 "mapping test")) == pol
-                       for t, pol in conds):
-                    live.append(n.value)
-            if len(live) != 1:
-                raise AnalysisError("Basin.load_dataset: cannot resolve the "
-                                    "returned object")
-            v = live[0]
-        while isinstance(v, ast.IfExp):
-            v = v.body if fold(v.test, {"self.mapping": mapping},
-                               "mapping test") else v.orelse
-        return v
+        """the expression load_dataset returns for this mapping (the body is
+        interpreted: assignments, if on the mapping, early returns)"""
+        env = {"self.mapping": mapping}
+        bound = {}
+
+        def resolve(v):
+            while True:
+                if isinstance(v, ast.Name) and v.id in bound \
+                        and v.id != loaded[0]:
+                    v = bound[v.id]
+                elif isinstance(v, ast.IfExp):
+                    v = v.body if fold(v.test, env, "mapping test") \
+                        else v.orelse
+                else:
+                    return v
+
+        def block(stmts):
+            for st in stmts:
+                if isinstance(st, ast.If):
+                    r = block(st.body if fold(st.test, env, "mapping test")
+                              else st.orelse)
+                    if r is not None:
+                        return r
+                elif isinstance(st, ast.Return):
+                    return resolve(st.value)
+                elif isinstance(st, ast.Assign) and len(
+                        st.targets) == 1 and isinstance(
+                        st.targets[0], ast.Name):
+                    bound[st.targets[0].id] = st.value
+                elif isinstance(st, (ast.Expr, ast.Pass)):
+                    continue
+                else:
+                    raise AnalysisError("Basin.load_dataset: statement "
+                                        f"`{short(st, 40)}` not recognised")
+            return None
+        r = block(ld.body)
+        if r is None:
+            raise AnalysisError("Basin.load_dataset: cannot resolve the "
+                                "returned object")
+        return r
+    rets = [r for r in walk(ld) if isinstance(r, ast.Return)]
     vm = value_for("basinmap0")
     ok = isinstance(vm, ast.Call) and call_name(vm) == "BasinProxy" and txt(
         kwarg(vm, "ds", 0)) == loaded[0] and txt(
@@ -828,8 +848,23 @@ def r73(ctx, repo):
         inside = {id(x) for x in ast.walk(ast.Module(
             body=branch.body if kind == "direct" else [branch],
             type_ignores=[]))}
-        return [n.value for n in walk(ex) if isinstance(n, ast.Assign)
-                and is_name(n.targets[0], le.id) and id(n) in inside]
+        out, todo, seen = [], [le.id], set()
+        while todo:
+            nm = todo.pop()
+            if nm in seen:
+                continue
+            seen.add(nm)
+            for n in walk(ex):
+                if isinstance(n, ast.Assign) and is_name(
+                        n.targets[0], nm) and id(n) in inside:
+                    if isinstance(n.value, ast.Name):
+                        todo.append(n.value.id)
+                    else:
+                        out.append(n.value)
+        if not out:
+            raise AnalysisError("Export.hdf5: cannot see how the locations "
+                                f"of the {kind} definition are built")
+        return out
     locs_h = loc_lists("hierarchy")
     ok = X(entry(h, "basin_format")) == f"{ROOT}.format" and bool(
         locs_h) and all(f"{ROOT}.path" in X(v) for v in locs_h)
@@ -1278,21 +1313,108 @@ def r75(ctx, repo):
         raise AnalysisError("Export.hdf5: location lists of the exported "
                             "dataset not found")
     sb = repo.func(WRITER, "RTDCWriter.store_basin")
-    apps = [c for c in walk(sb) if isinstance(c, ast.Call) and last_attr(
-        c) == "append" and any(not pol and txt(t) == "verify"
-                               for t, pol in enclosing_conditions(c, sb))]
-    ok = bool(apps) and all(isinstance(c.args[0], ast.Call) and call_name(
-        c.args[0]) == "str" and isinstance(c.args[0].args[0], ast.Name)
-        for c in apps)
-    if ok:
-        pv = apps[0].args[0].args[0].id
-        lps = [n for n in walk(sb) if isinstance(n, ast.For) and is_name(
-            n.target, pv) and is_name(n.iter, "basin_locs")]
-        ok = bool(lps)
+    # what is stored for a file basin when verify is off: the list that
+    # becomes b_data["paths"] on the branch basin_type == "file"
+    plists = set()
+    for n in walk(sb):
+        if isinstance(n, ast.Assign) and len(n.targets) == 1 and isinstance(
+                n.targets[0], ast.Subscript) and const_str(
+                n.targets[0].slice) == "paths" and isinstance(
+                n.value, ast.Name):
+            conds = enclosing_conditions(n, sb)
+            env = {"basin_type": "file"}
+            try:
+                if all(bool(Mini(env).ev(t)) == pol for t, pol in conds
+                       if "basin_type" in txt(t)):
+                    plists.add(n.value.id)
+            except Unknown as u:
+                raise AnalysisError(f"store_basin: cannot evaluate `{u}`")
+    if len(plists) != 1:
+        raise AnalysisError("store_basin: list of file locations not found")
+    PL = list(plists)[0]
+    apps = []
+    for c in find_calls(sb, attr="append"):
+        if not (isinstance(c.func, ast.Attribute) and is_name(
+                c.func.value, PL) and len(c.args) == 1):
+            continue
+        conds = [(t, pol) for t, pol in enclosing_conditions(c, sb)
+                 if "verify" in names_in(t)]
+        try:
+            if all(bool(Mini({"verify": False}).ev(t)) == pol
+                   for t, pol in conds):
+                apps.append(c)
+        except Unknown as u:
+            raise AnalysisError(f"store_basin: cannot evaluate `{u}`")
+    if not apps:
+        raise AnalysisError("store_basin: nothing is stored for unverified "
+                            "file locations")
+
+    def unchanged(e, loop, depth=0):
+        """True: the given location (loop variable) possibly wrapped in
+        str / pathlib.Path; False: altered; None: cannot tell"""
+        if depth > 4:
+            return None
+        if isinstance(e, ast.Call) and call_name(e) in (
+                "str", "pathlib.Path", "Path", "os.fspath",
+                "pathlib.PurePath") and len(e.args) == 1 \
+                and not e.keywords:
+            return unchanged(e.args[0], loop, depth + 1)
+        if isinstance(e, ast.JoinedStr) and len(e.values) == 1 \
+                and isinstance(e.values[0], ast.FormattedValue) \
+                and e.values[0].format_spec is None:
+            return unchanged(e.values[0].value, loop, depth + 1)
+        if isinstance(e, ast.Name):
+            if is_name(loop.target, e.id) and not [
+                    n for n in walk(loop) if isinstance(n, ast.Assign)
+                    and any(is_name(t, e.id) for t in n.targets)]:
+                return True
+            defs = [n.value for n in walk(loop) if isinstance(n, ast.Assign)
+                    and any(is_name(t, e.id) for t in n.targets)]
+            if not defs:
+                return None
+            res = []
+            for d in defs:
+                if is_name(loop.target, e.id) and e.id in names_in(d):
+                    # pp = pathlib.Path(pp): rebinding of the loop variable
+                    inner = d
+                    while isinstance(inner, ast.Call) and call_name(
+                            inner) in ("str", "pathlib.Path", "Path",
+                                       "os.fspath") and len(inner.args) == 1:
+                        inner = inner.args[0]
+                    res.append(True if is_name(inner, e.id) else (
+                        False if isinstance(inner, ast.Call) else None))
+                else:
+                    res.append(unchanged(d, loop, depth + 1))
+            if all(r is True for r in res):
+                return True
+            return False if any(r is False for r in res) else None
+        if isinstance(e, ast.Call) and isinstance(e.func, ast.Attribute) \
+                and e.func.attr in ("resolve", "absolute", "expanduser",
+                                    "relative_to", "replace", "with_name",
+                                    "with_suffix", "lower", "upper", "strip"):
+            return False
+        if isinstance(e, ast.Attribute) and e.attr in ("name", "parent",
+                                                       "stem"):
+            return False
+        return None
+    verdicts = []
+    for c in apps:
+        loop = c
+        while loop is not None and not (isinstance(loop, ast.For) and is_name(
+                loop.iter, "basin_locs")):
+            loop = getattr(loop, "parent", None)
+        if loop is None or not isinstance(loop.target, ast.Name):
+            raise AnalysisError("store_basin: loop over basin_locs lost")
+        v = unchanged(c.args[0], loop)
+        if v is None:
+            raise AnalysisError(f"store_basin: cannot tell what "
+                                f"`{short(c, 50)}` stores")
+        verdicts.append(v)
+    ok = all(verdicts)
     ctx.ob("R7.5", ok, "store_basin(verify=False) stores the given "
            "locations unchanged (relative names survive)" if ok else
            "store_basin(verify=False) alters the given locations",
-           node=apps[0] if apps else sb, label="unverified locations kept")
+           node=apps[0], label="unverified locations kept")
     ib = repo.func(FB, "InternalH5DatasetBasin.__init__")
     ok = any(isinstance(n, ast.If) and txt(n.test) == "self.mapping == 'same'"
              and any(isinstance(x, ast.Raise) for x in n.body)
@@ -1850,6 +1972,84 @@ _TWIN_CANDIDATES = (
     "            for bn in candidates:\n")
 
 
+def _twin_fetch_events(src):
+    """both gather loops moved into one helper with positional-only
+    parameters and *args / **kwargs"""
+    for old, rep in (
+            ("            out_arr = np.empty((len(self.basinmap),) + "
+             "self.feat_obj.shape[1:],\n"
+             "                               dtype=dtype or self.feat_obj.dtype,\n"
+             "                               *args, **kwargs)\n"
+             "            for ii, idx in enumerate(self.basinmap):\n"
+             "                out_arr[ii] = self.feat_obj[idx]\n"
+             "            return out_arr\n",
+             "            return self._fetch_events(self.basinmap, dtype, "
+             "*args, **kwargs)\n"),
+            ("            out_arr = np.empty((len(indices),) + "
+             "self.feat_obj.shape[1:],\n"
+             "                               dtype=self.feat_obj.dtype)\n"
+             "            for ii, idx in enumerate(indices):\n"
+             "                out_arr[ii] = self.feat_obj[idx]\n"
+             "            return out_arr\n",
+             "            return self._fetch_events(indices, None)\n"),
+            ("    def __len__(self):\n        return len(self.basinmap)\n\n"
+             "    @property\n    def shape(self):",
+             "    def _fetch_events(self, indices, dtype, /, *args, **kwargs):\n"
+             "        out_arr = np.empty((len(indices),) + "
+             "self.feat_obj.shape[1:],\n"
+             "                           dtype=dtype or self.feat_obj.dtype,\n"
+             "                           *args, **kwargs)\n"
+             "        for ii, idx in enumerate(indices):\n"
+             "            out_arr[ii] = self.feat_obj[idx]\n"
+             "        return out_arr\n\n"
+             "    def __len__(self):\n        return len(self.basinmap)\n\n"
+             "    @property\n    def shape(self):")):
+        if src.count(old) != 1:
+            return src
+        src = src.replace(old, rep)
+    return src
+
+
+def _twin_source_locs_helper(src):
+    """location block moved into a private helper returning a tuple"""
+    for who in ("ds", "ds_root"):
+        blk = (f'                    basin_is_local = {who}.format == "hdf5"\n'
+               f'                    basin_locs = [{who}.path]\n'
+               '                    if basin_is_local:\n'
+               '                        # So the user can put them into the '
+               'same directory.\n'
+               f'                        basin_locs.append({who}.path.name)\n')
+        if src.count(blk) != 1:
+            return src
+        src = src.replace(
+            blk, '                    basin_is_local, basin_locs = '
+            f'_get_basin_source_locs(\n                        {who})\n')
+    return src.replace(
+        'def store_filtered_feature(rtdc_writer, feat, data, filtarr):',
+        'def _get_basin_source_locs(ds_src):\n'
+        '    basin_is_local = ds_src.format == "hdf5"\n'
+        '    basin_locs = [ds_src.path]\n'
+        '    if basin_is_local:\n'
+        '        basin_locs.append(ds_src.path.name)\n'
+        '    return basin_is_local, basin_locs\n\n\n'
+        'def store_filtered_feature(rtdc_writer, feat, data, filtarr):', 1)
+
+
+def _twin_bloc_bpath(src):
+    """loop variable no longer rebound in its own body"""
+    a = src.index("            for pp in basin_locs:\n"
+                  "                pp = pathlib.Path(pp)\n")
+    b = src.index('            b_data["paths"] = flocs\n')
+    blk = src[a:b].replace(
+        "            for pp in basin_locs:\n"
+        "                pp = pathlib.Path(pp)\n",
+        "            for bloc in basin_locs:\n"
+        "                bpath = pathlib.Path(bloc)\n").replace(
+        "pp.", "bpath.").replace("str(pp)", "str(bpath)").replace(
+        "str(self.path.parent) + os.sep", 'f"{self.path.parent}{os.sep}"')
+    return src[:a] + blk + src[b:]
+
+
 def _twin_origin_helper(src):
     """the two literal definitions built by one module-level helper"""
     a = src.index('                    basin_is_local = ds.format == "hdf5"\n')
@@ -1897,6 +2097,19 @@ TWINS = [
      _twin_append_verified),
     ("basin loop over a filtering generator expression", CORE,
      _TWIN_CANDIDATES),
+    ("gather loops in a helper with positional-only parameters", FB,
+     _twin_fetch_events),
+    ("load_dataset with early return", FB,
+     ("            ds_bn = BasinProxy(ds=ds, basinmap=self.basinmap)\n"
+      "        else:\n"
+      "            ds_bn = ds\n"
+      "        return ds_bn\n",
+      "            return BasinProxy(ds=ds, basinmap=self.basinmap)\n"
+      "        return ds\n")),
+    ("basin locations from a helper returning a tuple", EXPORT,
+     _twin_source_locs_helper),
+    ("file locations loop without rebinding the loop variable", WRITER,
+     _twin_bloc_bpath),
     ("definitions of the exported dataset built by a helper", EXPORT,
      _twin_origin_helper),
     ("map name search with early continue", WRITER,
